@@ -145,6 +145,20 @@ Theorem C18_findroot_converges : forall (f : R -> R) fdx tol conv x0 a b n L,
 Proof. exact findroot_converges. Qed.
 Print Assumptions C18_findroot_converges.
 
+(** The general form, not tied to a global Lipschitz constant (it also covers functions
+    that are flat at the root): if every bracket of width <= w inside [a,b] has an end whose
+    value is within the tolerance, n >= 1 halvings bring b-a below w and conv <= w, the
+    tolerance is reached.  This is the clause the check evaluates on the implementation. *)
+Theorem C18_findroot_converges_modulus : forall (f : R -> R) fdx tol conv x0 a b n w,
+  (forall lo hi, a <= lo -> lo <= hi -> hi <= b -> f lo <= 0 -> 0 <= f hi ->
+                 hi - lo <= w -> Rmin (Rabs (f lo)) (f hi) < tol) ->
+  a <= x0 <= b -> f a <= 0 <= f b ->
+  (x0 = a \/ x0 = b \/ conv <= Rabs (x0 - (a + b) / 2)) ->
+  conv <= w -> (b - a) / 2 ^ n <= w -> (1 <= n)%nat ->
+  exists r, find_root f fdx tol conv x0 a b n = Some r /\ Rabs (rdelta r) < tol.
+Proof. exact findroot_converges_modulus. Qed.
+Print Assumptions C18_findroot_converges_modulus.
+
 (** The hypothesis on the initial guess cannot be dropped ("all initial guesses" is
     FALSE): guess at the midpoint of a bracket with f a = - f b, first-iteration
     convergence exit with |delta| far above the tolerance. *)
